@@ -11,7 +11,7 @@ func init() { register("C18", "proof", runC18) }
 
 const specID = `^[A-Za-z][-_A-Za-z0-9]*$`
 
-func runC18(p *Program, r *Report) {
+func runC18Shape(p *Program, r *Report) {
 	engineConsistency(p, r, "C18.E", func(n string) bool { return strings.Contains(n, "Pattern") })
 
 	r.Trusted = []string{"go/types + go/ssa construction", "regexp/syntax semantics as modelled by relang (unit-tested against package regexp)"}
